@@ -168,6 +168,14 @@ class Analysis:
             c = (a.c / 2 + un) * SLACK
             self.lemma_sqrt(a.c, un, c)
             return Node(E, E, c, '+', True)
+        if op == 'call' and x.args[0] == 'pow' and kids[1].const is not None and kids[1].const.denominator == 1 and 0 < kids[1].const <= 8:
+            a = kids[0]
+            n = int(kids[1].const)
+            if not a.rel:
+                raise Abort('power of an ill-conditioned value')
+            un = self.unit(ty)
+            c = (a.c * n + 2 * un) * SLACK
+            return Node(E, absz(E, '+' if n % 2 == 0 else a.sign), c, '+' if n % 2 == 0 else a.sign, True)
         if op == 'call' and x.args[0] == 'fabs':
             (a,) = kids
             return Node(E, a.M, a.c, '+' if a.sign in '+-' else a.sign, a.rel)
